@@ -122,9 +122,11 @@ def generate(cls, rng):
                 else:
                     prog.append(["query", rng.randrange(len(kinds))] + when)
             threads.append(prog)
-        kind = rng.choice(["random", "random", "pb", "pct"])
+        kind = rng.choice(["random", "random", "pb", "pct", "pbx", "pbx"])
         if kind == "random":
             strat = dict(kind="random", p=rng.choice([0.02, 0.1, 0.3, 1.0]))
+        elif kind == "pbx":
+            strat = dict(kind="pbx", k=rng.choice([1, 1, 2, 3]))
         elif kind == "pb":
             strat = dict(kind="pb", k=rng.choice([1, 2, 3]),
                          horizon=rng.choice([200, 1000, 4000]))
